@@ -333,9 +333,13 @@ func main() {
 			link(J(src))
 			if c.NonExec {
 				// a copy without the execute bit (the hard link shares its mode with the worker itself)
-				wb, _ := os.ReadFile(J(src))
+				// (copied by a child process: a file this multi-threaded process writes itself could still be open in a child it
+				// forks at that moment, and executing it would then fail with "text file busy")
 				os.Remove(J(src))
-				os.WriteFile(J(src), wb, 0o644)
+				if out, err := exec.Command("cp", workerSrc, J(src)).CombinedOutput(); err != nil {
+					panic(fmt.Sprintf("harness: cp failed: %v %s", err, out))
+				}
+				os.Chmod(J(src), 0o644)
 			}
 			if !c.NonExec { // (a second notation-* file would make the lone candidate ambiguous; the sentinel derives the name from its file name)
 				os.WriteFile(J(src)+".name", []byte(c.Name), 0o644)
